@@ -51,6 +51,16 @@ def books(ctx):
             v = None
         if v is not None:
             out.append((f'{label}, pump / driver tab titles in upper case', v))
+    # tab order carries no meaning: the same workbooks with a pump tab / a driver tab first, and with all tabs reversed
+    for label, wb in list(out)[:ctx.n(3, 12)]:
+        for what, mk in (('a pump tab moved to the front', lambda w: X.tab_first(w, 'pump')), ('a driver tab moved to the front', lambda w: X.tab_first(w, 'driver')),
+                         ('tabs in reverse order', X.tabs_reversed)):
+            try:
+                v = mk(wb)
+            except Exception:   # noqa
+                v = None
+            if v is not None:
+                out.append((f'{label}, {what}', v))
     return out
 
 
